@@ -15,7 +15,6 @@ from vf import build, coq, forest as F, mch, mcgen
 from vf.core import sh
 from props import c02
 
-KEY_SCOPE = "pg-rejected-trigger-scope"
 
 
 def gen_cfg(rng, shape=None):
@@ -121,8 +120,8 @@ def inproc(ctx):
         ctx.case(key=("sel", repr(cfg), tuple(evs)), tags=["sel-spec", "shape:" + cfg["shape"], "filter-spelling:" + facts] +
                  ["sel:-F" if any(t["filter"] for t in cfg["trig"].values()) else "sel:no-F",
                   "sel:-N" if any(not t["filter"] for t in cfg["trig"].values()) else "sel:no-N"], size=len(evs))
-    # stage-2 specification cases: -F / -N / -D / -t plus depth= and time= trigger actions (well-formed values;
-    # on the -pg shape a time= trigger only together with a filter or a depth= trigger: outside that the finding pg-rejected-trigger-scope)
+    # stage-2 specification cases: -F / -N / -C / -D / -t plus depth=, time=, size= and trace trigger actions (well-formed
+    # values), both shapes, no restriction on the combination
     sel2cases = []
     for i in range(ctx.n(50, 600)):
         cfg = {"shape": rng.choice(["pg", "cyg"]), "trig": {}, "pattern": rng.choice(["simple", "regex", "glob"])}
@@ -135,9 +134,9 @@ def inproc(ctx):
                 tr["as_action"] = facts == "all" or (facts == "mixed" and rng.random() < 0.5)
             if rng.random() < 0.45:
                 tr["depth"] = rng.choice([1, 1, 2, 3])
-            if rng.random() < 0.45 and (cfg["shape"] == "cyg" or "filter" in tr or "depth" in tr):
+            if rng.random() < 0.45:
                 tr["time"] = rng.choice([0, 1, 5, 10, 100])
-            if rng.random() < 0.25 and (cfg["shape"] == "cyg" or "filter" in tr or "depth" in tr):
+            if rng.random() < 0.25:
                 tr["size"] = rng.choice([20, 40, 60, 100])
             if rng.random() < 0.2:
                 tr["trace"] = True
@@ -156,6 +155,70 @@ def inproc(ctx):
         cases.append({"cfg": cfg, "forest": fo, "evs": evs, "res": res, "complete": True})
         ctx.case(key=("sel2", repr(cfg), tuple(evs)), tags=["sel2-spec", "shape:" + cfg["shape"]] +
                  sorted({"sel2:" + k for t in cfg["trig"].values() for k in t if k != "as_action"}), size=len(evs))
+    # -Z (record --size-filter) on top of the stage-2 option class: specification sel2 started with the size filter in force
+    zcases = []
+    for i in range(ctx.n(20, 250)):
+        cfg = {"shape": rng.choice(["pg", "cyg"]), "trig": {}, "pattern": rng.choice(["simple", "regex", "glob"]),
+               "min_size": rng.choice([20, 40, 60, 100, 300])}
+        for k in rng.sample(range(6), rng.randrange(0, 4)):
+            tr = {}
+            if rng.random() < 0.4:
+                tr["filter"] = rng.random() < 0.6
+            if rng.random() < 0.35:
+                tr["depth"] = rng.choice([1, 2, 3])
+            if rng.random() < 0.35:
+                tr["time"] = rng.choice([0, 1, 5, 10])
+            if rng.random() < 0.4:
+                tr["size"] = rng.choice([20, 40, 60, 100])
+            if rng.random() < 0.15:
+                tr["trace"] = True
+            if tr:
+                cfg["trig"][k] = tr
+        if rng.random() < 0.5:
+            cfg["depth"] = rng.choice([1, 2, 3, 4])
+        if rng.random() < 0.4:
+            cfg["threshold"] = rng.choice([1, 5, 10])
+        fo = F.assign_times(rng, F.gen_shape(rng, 6, rng.choice([4, 8, 16]), 5), durs=DURS)
+        evs = F.flatten(fo)
+        res = mcgen.run_case(h, cfg, evs)
+        zcases.append({"cfg": cfg, "forest": fo, "evs": evs, "res": res})
+        ctx.case(key=("sel2z", repr(cfg), tuple(evs)), tags=["sel2-spec", "sel2:-Z", "shape:" + cfg["shape"]] +
+                 sorted({"sel2:" + k for t in cfg["trig"].values() for k in t}), size=len(evs))
+    # the finish trigger: one function has -T f@finish, on top of a random option set (filters, depth limit, switches);
+    # the records of the implementation against the model run that stops at the first firing entry, and - same
+    # options and history - the two instrumentation shapes against each other
+    fincases = []
+    for i in range(ctx.n(20, 200)):
+        cfg = {"trig": {}, "pattern": rng.choice(["simple", "regex", "glob"])}
+        ks = rng.sample(range(6), rng.randrange(1, 4))
+        cfg["trig"][ks[0]] = {"finish": True}
+        if rng.random() < 0.3:
+            cfg["trig"][ks[0]]["filter"] = rng.random() < 0.5
+        for k in ks[1:]:
+            tr = {}
+            r = rng.random()
+            if r < 0.35:
+                tr["filter"] = rng.random() < 0.6
+            elif r < 0.5:
+                tr["depth"] = rng.choice([0, 1, 2])
+            elif r < 0.65:
+                tr["time"] = rng.choice([0, 5, 100])
+            elif r < 0.8:
+                tr["trace_off"] = True
+            else:
+                tr["trace_on"] = True
+            cfg["trig"][k] = tr
+        if rng.random() < 0.6:
+            cfg["depth"] = rng.choice([1, 2, 3])
+        if rng.random() < 0.3:
+            cfg["threshold"] = rng.choice([1, 5, 10])
+        fo = F.assign_times(rng, F.gen_shape(rng, 6, rng.choice([4, 8, 16]), 5), durs=DURS)
+        evs = F.flatten(fo)
+        r1 = mcgen.run_case(h, dict(cfg, shape="pg"), evs)
+        r2 = mcgen.run_case(h, dict(cfg, shape="cyg"), evs)
+        fincases.append({"cfg": cfg, "evs": evs, "pg": r1, "cyg": r2})
+        ctx.case(key=("finish", repr(cfg), tuple(evs)), tags=["finish-trigger"] +
+                 sorted({"fin:" + k for t in cfg["trig"].values() for k in t}), size=len(evs))
     # ---- evaluate in Coq
     terms = [mcgen.case_term(c["cfg"], c["evs"], c["res"]) for c in cases]
     defs = "Definition cases : list case4 := [\n%s\n].\n" % ";\n".join(terms)
@@ -184,20 +247,36 @@ def inproc(ctx):
     def opt(v, f="%d"):
         return "None" if v is None else "Some " + (f % v)
     sizes_term = "[%s]" % "; ".join("(%d, %d)" % (256 * i, z) for i, z in enumerate(mch.SIZES))
-    sel2_terms = ["ok_sel2 [%s] %s %s %s %d %d %s %s" % (
-        "; ".join("(%d, {| sf := %s; sd := %s; stm := %s; ssz := %s; str := %s; sc := %s |})" % (
+    def sel2_term(c, z=None):
+        tg = "; ".join("(%d, {| sf := %s; sd := %s; stm := %s; ssz := %s; str := %s; sc := %s; sl := %s |})" % (
             256 * k, "None" if t.get("filter") is None else "Some " + coq.coq_bool(t["filter"]),
             opt(t.get("depth")), opt(t.get("time")), opt(t.get("size")), coq.coq_bool(t.get("trace")),
-            coq.coq_bool(t.get("caller")))
-            for k, t in sorted(c["cfg"]["trig"].items())), sizes_term,
-        coq.coq_bool(any(t.get("filter") is True for t in c["cfg"]["trig"].values())),
-        coq.coq_bool(any(t.get("caller") for t in c["cfg"]["trig"].values())),
-        c["cfg"].get("depth") if c["cfg"].get("depth") is not None else 1024, c["cfg"].get("threshold") or 0,
-        F.coq_forest(c["forest"]), mcgen.coq_recs(c["res"]["recs"])) for c in sel2cases]
+            coq.coq_bool(t.get("caller")), "None" if t.get("loc") is None else "Some " + coq.coq_bool(t["loc"]))
+            for k, t in sorted(c["cfg"]["trig"].items()))
+        return "%s [%s] %s %s %s %s %d %d %s%s %s" % (
+            "ok_sel2" if z is None else "ok_sel2z", tg, sizes_term,
+            coq.coq_bool(any(t.get("filter") is True for t in c["cfg"]["trig"].values())),
+            coq.coq_bool(any(t.get("caller") for t in c["cfg"]["trig"].values())),
+            coq.coq_bool(any(t.get("loc") is True for t in c["cfg"]["trig"].values())),
+            c["cfg"].get("depth") if c["cfg"].get("depth") is not None else 1024, c["cfg"].get("threshold") or 0,
+            "" if z is None else "%d " % z, F.coq_forest(c["forest"]), mcgen.coq_recs(c["res"]["recs"]))
+    sel2_terms = [sel2_term(c) for c in sel2cases]
+    defs += "Definition zcases : list (N * case4) := [\n%s\n].\n" % ";\n".join(
+        "(%d, %s)" % (c["cfg"]["min_size"], mcgen.case_term(c["cfg"], c["evs"], c["res"])) for c in zcases)
+    defs += "Definition sel2zchk : list bool := [\n%s\n].\n" % ";\n".join(sel2_term(c, c["cfg"]["min_size"]) for c in zcases)
     defs += "Definition sel2chk : list bool := [\n%s\n].\n" % ";\n".join(sel2_terms)
+    defs += "Definition fincases : list (cfg * list ev * list seen5 * bool) := [\n%s\n].\n" % ";\n".join(
+        "(%s, %s, %s, %s)" % (F.coq_cfg(dict(c["cfg"], shape=sh), mch.SIZES), F.coq_events(c["evs"]),
+                              mcgen.coq_recs(c[sh]["recs"]), coq.coq_bool(sh == "pg"))
+        for c in fincases for sh in ("pg", "cyg"))
     res = coq.run_cases(ctx, "c05_cases", mcgen.PRE, defs, [
         ("sel", "bad_indices (fun b : bool => b) selchk 0"),
         ("sel2", "bad_indices (fun b : bool => b) sel2chk 0"),
+        ("sel2z", "bad_indices (fun b : bool => b) sel2zchk 0"),
+        ("fin", "bad_indices (fun p : cfg * list ev * list seen5 * bool => let '(a, b, r, _) := p in ok_fin a b r) fincases 0"),
+        ("finfired", "bad_indices (fun p : cfg * list ev * list seen5 * bool => let '(a, b, _, _) := p in negb (fin_fired a b)) "
+                     "fincases 0"),
+        ("zmismatch", "bad_indices agree4z zcases 0"),
         ("mismatch", "bad_indices agree4 cases 0"),
         ("leaky", "bad_indices (fun c : case4 => let '(a, b, _, _) := c in negb (leaky a b)) cases 0"),
         ("scope", "bad_indices (fun c : case4 => let '(a, b, _, _) := c in negb (rejected_trigger a b)) cases 0"),
@@ -207,13 +286,13 @@ def inproc(ctx):
         ("plain", "bad_indices (fun b : bool => b) plainchk 0"),
         ("emb", "bad_indices (fun b : bool => b) embchk 0"),
         ("method", "bad_indices (fun p : cfg * list ev * list seen5 * list seen5 => let '(a, b, r1, r2) := p in "
-                   "rejected_trigger a b || list_eqb seen_eqb r1 r2) pairs 0"),
+                   "list_eqb seen_eqb r1 r2) pairs 0"),
     ], timeout=1500)
     if res is None:
         return
     R = {k: coq.parse_nat_list(v) for k, v in res.items()}
     ctx.extra["cases_leaving_a_rejected_change_behind"] = len(R["leaky"])      # must be 0 since the repair
-    ctx.extra["cases_in_rejected_trigger_scope_class"] = len(R["scope"])
+    ctx.extra["cases_with_a_rejected_call_whose_trigger_changes_state"] = len(R["scope"])
     ctx.extra["disagreements_checked"] = len(R["mismatch"])
     ctx.extra["plain_spec_checks"] = len(plain)
     ctx.extra["embedded_subhistory_checks"] = len(embi)
@@ -244,6 +323,33 @@ def inproc(ctx):
                       "triggers (specification sel2)",
                       {"mode": "inproc", "cfg": c["cfg"], "events": c["evs"], "impl_records": c["res"]["recs"],
                        "env": mch.cfg_env(c["cfg"])}, True)
+    for j in R["sel2z"][:2]:
+        c = zcases[j]
+        ctx.violation("C05: recorded trace differs from the documented semantics of -Z together with -F/-N/-D/-t and "
+                      "depth=/time=/size=/trace triggers (specification sel2 with the size filter in force)",
+                      {"mode": "inproc", "cfg": c["cfg"], "events": c["evs"], "impl_records": c["res"]["recs"],
+                       "env": mch.cfg_env(c["cfg"])}, True)
+    if R["zmismatch"] and not R["sel2z"]:
+        c = zcases[R["zmismatch"][0]]
+        ctx.violation("model and libmcount disagree on %d -Z case(s); the C05 checkers accept every explored "
+                      "implementation output" % len(R["zmismatch"]),
+                      {"correspondence": "UV.Mcount.Model (init_z) vs libmcount hooks (state after each hook + records)",
+                       "cfg": c["cfg"], "env": mch.cfg_env(c["cfg"]), "events": c["evs"],
+                       "impl_states": c["res"]["states"], "impl_records": c["res"]["recs"]}, False)
+    ctx.extra["finish_cases_in_which_the_trigger_fired"] = len(R["finfired"])
+    finm = [j for j, c in enumerate(fincases) if c["pg"]["recs"] != c["cyg"]["recs"]]
+    for j in finm[:2]:
+        c = fincases[j]
+        ctx.violation("C05: with a finish trigger the recorded trace depends on the instrumentation method",
+                      {"mode": "pair", "cfg": c["cfg"], "events": c["evs"], "pg_records": c["pg"]["recs"],
+                       "cyg_records": c["cyg"]["recs"], "env": mch.cfg_env(c["cfg"])}, True)
+    if R["fin"] and not finm:
+        c = fincases[R["fin"][0] // 2]
+        ctx.violation("model and libmcount disagree on %d finish-trigger case(s) (records after the run); the two "
+                      "instrumentation shapes agree with each other on every explored case" % len(R["fin"]),
+                      {"correspondence": "UV.Mcount.Model exec_f / finish_enter vs libmcount (-T f@finish)",
+                       "cfg": c["cfg"], "env": mch.cfg_env(c["cfg"]), "events": c["evs"],
+                       "pg_records": c["pg"]["recs"], "cyg_records": c["cyg"]["recs"]}, False)
     for j in R["method"][:2]:
         p = pairs[j]
         ctx.violation("C05: recorded trace depends on the instrumentation method",
@@ -259,32 +365,28 @@ def inproc(ctx):
 
 
 def known_leak(ctx):
-    """regression witnesses of the repaired defect pg-reject-leak (Restore.v leak_cfg / leak2_cfg) and the witness of
-    the narrower finding that remains: a rejected -pg call's time= trigger does not reach its callees"""
+    """regression witnesses of the repaired defect pg-reject-leak (Restore.v leak_cfg / leak2_cfg) and of its second half
+    (a rejected -pg call's time= / size= trigger did not reach its callees)"""
     h = mch.Harness(ctx)
     w1 = ({"trig": {1: {"time": 1000}}, "depth": 1}, [("E", 0, 100), ("E", 1, 110), ("X", 1, 120), ("X", 0, 200)])
     w2 = ({"trig": {1: {"depth": 0}}}, [("E", 0, 100), ("E", 1, 110), ("X", 1, 120), ("E", 2, 130), ("X", 2, 140),
                                         ("X", 0, 200)])
-    for cfg, evs in (w1, w2):
+    # main{ b{ c } } with -D 1, b@time=1000, c@depth=1: b is beyond -D; its frame carries the threshold to c (c runs
+    # 10 ns: hidden) under either instrumentation method
+    w3 = ({"trig": {1: {"time": 1000}, 2: {"depth": 1}}, "depth": 1},
+          [("E", 0, 100), ("E", 1, 110), ("E", 2, 120), ("X", 2, 130), ("X", 1, 140), ("X", 0, 200)])
+    # main{ b{ c } c } with b@depth=0: b and what it calls are hidden, the later c is shown
+    w4 = ({"trig": {1: {"depth": 0}}}, [("E", 0, 100), ("E", 1, 110), ("E", 2, 115), ("X", 2, 118), ("X", 1, 120),
+                                        ("E", 2, 130), ("X", 2, 140), ("X", 0, 200)])
+    for cfg, evs in (w1, w2, w3, w4):
         r_pg = mcgen.run_case(h, dict(cfg, shape="pg"), evs)
         r_cyg = mcgen.run_case(h, dict(cfg, shape="cyg"), evs)
         ctx.case(key=("fixed-leak", repr(cfg)), tags=["regression:pg-reject-leak"])
         if r_pg["recs"] != r_cyg["recs"] or not r_pg["recs"]:
-            ctx.violation("C05: a -pg call rejected after its trigger changed the filter state leaves the change behind "
-                          "(regression of the repaired defect pg-reject-leak)",
+            ctx.violation("C05: a -pg call rejected after its trigger changed the filter state leaves the change behind, or "
+                          "does not apply it to its callees (regression of the repaired defect pg-reject-leak)",
                           {"mode": "leak-witness", "cfg": cfg, "events": evs, "pg_records": r_pg["recs"],
                            "cyg_records": r_cyg["recs"]}, True)
-    # what remains: main{ b{ c } } with -D 1, b@time=1000, c@depth=1: b is beyond -D; under cygprof its frame carries the
-    # threshold to c (c runs 10 ns: hidden), under -pg nothing of b is kept (c is shown)
-    w3 = ({"trig": {1: {"time": 1000}, 2: {"depth": 1}}, "depth": 1},
-          [("E", 0, 100), ("E", 1, 110), ("E", 2, 120), ("X", 2, 130), ("X", 1, 140), ("X", 0, 200)])
-    r_pg = mcgen.run_case(h, dict(w3[0], shape="pg"), w3[1])
-    r_cyg = mcgen.run_case(h, dict(w3[0], shape="cyg"), w3[1])
-    ctx.case(key=("known-scope", repr(w3[0])), tags=["known:" + KEY_SCOPE])
-    ctx.known_finding(KEY_SCOPE, "on the -pg/fentry path a call rejected by the depth limit keeps no frame, so its time= / "
-                      "size= trigger does not reach its callees, while under -finstrument-functions it does: the recorded "
-                      "trace depends on the instrumentation method", still_fails=(r_pg["recs"] != r_cyg["recs"]),
-                      replay={"witness": w3, "pg_records": r_pg["recs"], "cyg_records": r_cyg["recs"]})
 
 
 # ---------------------------------------------------------------- end-to-end (-F / -N / -D on real programs)
@@ -293,21 +395,26 @@ def e2e(ctx, objdir):
     uft = os.path.join(objdir, "uftrace")
     work = os.path.join(ctx.scratch, "e2e")
     os.makedirs(work, exist_ok=True)
-    for pi in range(ctx.n(3, 16)):
+    for pi in range(ctx.n(6, 24)):
         fo_main = F.gen_shape(rng, 6, rng.choice([6, 12, 25]), 6)
-        src, names = c02.c_program(fo_main, [])
+        # source locations for -L: every function class lies in "file" locA.c or locB.c, main in locmain.c
+        locbit = rng.randrange(2)
+
+        def loc_of(k):
+            return "AB"[(k + locbit) % 2]
+        src, names = c02.c_program(fo_main, [], loc_of=loc_of)
         cfile = os.path.join(work, "q%d.c" % pi)
         open(cfile, "w").write(src)
         method, cflags, rflags = rng.choice(c02.METHODS[:3])
         exe = os.path.join(work, "q%d" % pi)
-        rc, o, e = sh(["gcc", "-O1", "-o", exe, cfile, "-pthread"] + cflags, timeout=120)
+        rc, o, e = sh(["gcc", "-O1", "-g", "-o", exe, cfile, "-pthread"] + cflags, timeout=120)
         if rc != 0:
             ctx.broken("e2e program does not compile", e[-400:])
             continue
         # options: -F / -N on function classes (suffix _f<k>), -D
         trig = {}
         opts = []
-        present = sorted({int(n.rsplit("_f", 1)[1]) for n in names.values()})
+        present = sorted({int(n.rsplit("_f", 1)[1]) for n in names.values() if isinstance(n, str)})
         ks = rng.sample(present, min(len(present), rng.randrange(1, 3)))     # a pattern that matches nothing
                                                                              # does not count as a filter
         facts = rng.choice(["none", "all", "mixed"])
@@ -329,6 +436,14 @@ def e2e(ctx, objdir):
             k = rng.choice(others)
             trig[k] = {"caller": True}
             opts += rng.choice([["-C", "_f%d$" % k], ["-T", "_f%d$@caller" % k]])
+        # location filter: show only locA.c / hide locA.c (-L locA.c[@hide]); main (locmain.c) is outside every named location
+        in_a = [k for k in present if loc_of(k) == "A"]
+        lmode = None
+        if in_a and rng.random() < 0.5:
+            lmode = rng.choice(["show", "hide"])
+            for k in in_a:
+                trig.setdefault(k, {})["loc"] = (lmode == "show")
+            opts += ["-L", "locA.c" + ("@hide" if lmode == "hide" else "")]
         cfg = {"shape": "cyg" if method == "cyg" else "pg", "trig": trig}
         if rng.random() < 0.5:
             cfg["depth"] = rng.choice([1, 2, 3, 4])
@@ -360,7 +475,8 @@ def e2e(ctx, objdir):
             ("model", "let '(a, b) := c in map (fun r : rec => (type_code (r_type r), r_depth r, r_addr r)) "
                       "(out (fst (exec a b (init, []))))"),
             ("leaky", "let '(a, b) := c in leaky a b")])
-        ctx.case(key=("e2e", method, tuple(opts), src), tags=["e2e:" + method, "e2e:opts=%d" % len(opts)], size=len(evs))
+        ctx.case(key=("e2e", method, tuple(opts), src), tags=["e2e:" + method, "e2e:opts=%d" % len(opts),
+                                                             "e2e:-L=" + str(lmode)], size=len(evs))
         if r is None:
             continue
         import re
@@ -386,10 +502,14 @@ def meta(ctx):
     ctx.assume = [
         "pattern matching itself (regexec/fnmatch) and the option -> trigger-table translation (utils/filter.c) are "
         "exercised by the tie but not modelled; one trigger spec per function",
-        "source-location filters (-L), finish, recover, argument capture and events are outside this model",
+        "recover, argument capture and events are outside this model; the finish trigger is modelled at the level of the "
+        "thread's stream (exec_f: the run stops at the first firing entry; what other threads do after the global flag "
+        "is set is not modelled); the location filter -L is in the model and in "
+        "the specification sel2 (theorems quantify over it) but its tie is end-to-end only (generated programs whose "
+        "functions carry #line source locations; the in-process harness functions have no DWARF)",
         "refinement to the documented semantics is proved for -F/-N/-C/-D/-t and the trigger actions filter/notrace/"
-        "depth=(>0)/time=/size=/trace (specifications sel, sel2; the -pg shape under pg_guard, outside it the finding pg-rejected-trigger-scope); "
-        "trace_on/trace_off, finish, -L and depth=0 are tied by correspondence + the restoration and embedded-sub-history "
+        "depth=(>0)/time=/size=/trace (specifications sel, sel2, both instrumentation shapes); "
+        "trace_on/trace_off, finish and depth=0 are tied by correspondence (finish: records only) + the restoration and embedded-sub-history "
         "theorems only",
         "theorems quantify over complete call forests within --max-stack and clock readings < 2^64 that do not go "
         "backwards inside a call; end times are non-zero (libmcount uses 0 for 'still running')",
